@@ -163,6 +163,7 @@ type caseRes struct {
 	conns   map[net.Conn]struct{}
 	closed  bool
 
+	bootOwner  *caseRes // sibling whose bootstrap server this case shares (nil: own server)
 	socksAddr  string
 	bootAddr   string
 	listenErr  string
@@ -718,6 +719,10 @@ func (cr *caseRes) serveSocks(c net.Conn) {
 // ---------------------------------------------------------------------------
 
 func (cr *caseRes) openBootstrap() {
+	if cr.bootOwner != nil {
+		cr.bootAddr = cr.bootOwner.bootAddr
+		return
+	}
 	pc, err := net.ListenUDP("udp", &net.UDPAddr{IP: net.IPv4(127, 0, 0, 1)})
 	if err != nil {
 		cr.listenErr = "bootstrap: " + err.Error()
